@@ -1,5 +1,5 @@
 """C18 -- logging never fails the caller, stays bounded, and its files read back."""
-import glob, json, os
+import glob, io as io_mod, json, os
 from harness import common
 from harness.common import coq_list, coq_Z, coq_bool
 
@@ -29,11 +29,13 @@ def run(ctx):
     run_corpus(ctx, impl)
     traces = logger_traces(ctx, impl)
     subs = subscription_traces(ctx, impl)
+    wruns = writer_family(ctx, impl)
     hostile_calls(ctx, impl)
     format_total(ctx, impl)
     if model_ok:
         correspond_logger(ctx, traces)
         correspond_subs(ctx, subs)
+        correspond_writers(ctx, wruns)
         replay_model_witnesses(ctx, impl)
     if not ok:
         # reported even when a failing input was found as well: a finding listed as known must not hide a broken proof
@@ -454,47 +456,102 @@ def is_subseq(a, b):
     return all(x in it for x in a)
 
 
+def gen_prefill(rng, real):
+    """what the history buffers hold when the subscriber arrives: from nothing to far more than MAX_QUEUE_SIZE"""
+    ops, cid = [], 0
+    if real:
+        if rng.random() < 0.5:            # many full default-size buffers
+            for f in range(1, rng.randint(21, 30) + 1):
+                for i in range(rng.randint(100, 115)):
+                    ops.append(["msg", f, 20, cid])
+                    cid += 1
+        else:                             # one large configured buffer
+            n = rng.randint(2050, 2600)
+            ops.append(["size", 1, 20, n + rng.randint(-30, 400)])
+            for i in range(n):
+                ops.append(["msg", 1, 20, cid])
+                cid += 1
+        return ops
+    nf = rng.randint(1, 4)
+    for i in range(rng.randint(0, 2)):
+        ops.append(["size", rng.randint(0, nf), rng.choice([20, 30]), rng.choice([0, 1, 3, 10])])
+    for i in range(rng.choice([0, 1, 2, 5, 9, 17, 40])):
+        ops.append(["msg", rng.randint(0, nf), rng.choice([20, 20, 30]), cid])
+        cid += 1
+    return ops
+
+
+FIXED_SUBS = [
+    # (maxq, maxfl, prefill, catch_up, schedule): one witness per family of earlier seeded changes
+    (5, 1, [], False, "SSTASTATAT"),                                   # an event emitted between an ack and the next turn
+    (3, 2, [["msg", 0, 20, i] for i in range(10)], True, "TSSTATATSSSSST"),    # catch-up batch larger than the queue limit
+    (None, None, [["msg", f, 20, (f - 1) * 100 + i] for f in range(1, 27) for i in range(100)], True,
+     "T" + "S" * 5 + "TATATSSTAT"),                                     # 2600 buffered events, real MAX_QUEUE_SIZE
+    (2, 1, [["size", 1, 20, 50]] + [["msg", 1, 20, i] for i in range(60)], True, "SSSTATSTAT"),
+]
+
+
 def subscription_traces(ctx, impl):
     out = []
     n = ctx.n(220, 4000)
-    nreal = ctx.n(3, 20)
+    nreal = ctx.n(4, 24)
+    from foolscap.logging import publish
     with impl.E.quiet():
-        for i in range(n + nreal):
-            real = i >= n
-            if real:
-                maxq = maxfl = None
+        for i in range(len(FIXED_SUBS) + n + nreal):
+            if i < len(FIXED_SUBS):
+                maxq, maxfl, prefill, catch_up, sched = FIXED_SUBS[i]
+                ops = list(sched)
+                real = maxq is None
             else:
-                maxq, maxfl = ctx.rng.choice([0, 1, 2, 3, 5, 8]), ctx.rng.choice([1, 1, 2, 3, 10])
-            from foolscap.logging import publish
-            ops = gen_sched(ctx.rng, publish.Subscription.MAX_QUEUE_SIZE if real else maxq,
-                            publish.Subscription.MAX_IN_FLIGHT if real else maxfl, real)
-            r = impl.run_subscription(maxq, maxfl, ops, ctx.rng)
+                real = i >= len(FIXED_SUBS) + n
+                if real:
+                    maxq = maxfl = None
+                else:
+                    maxq, maxfl = ctx.rng.choice([0, 1, 2, 3, 5, 8]), ctx.rng.choice([1, 1, 2, 3, 10])
+                catch_up = ctx.rng.random() < (0.5 if real else 0.4)
+                prefill = gen_prefill(ctx.rng, real) if (catch_up or ctx.rng.random() < 0.2) else []
+                ops = gen_sched(ctx.rng, publish.Subscription.MAX_QUEUE_SIZE if real else maxq,
+                                publish.Subscription.MAX_IN_FLIGHT if real else maxfl, real)
+            r = impl.run_subscription(maxq, maxfl, ops, ctx.rng, prefill, catch_up)
             MQ, MF = r["limits"]
             full = flight = False
-            replay = dict(maxq=MQ, maxfl=MF, ops="".join(ops))
-            for k, (ql, infl, marked, subd, ndel) in enumerate(r["steps"]):
+            nbuf = len(r["buffered"])
+            replay = dict(maxq=MQ, maxfl=MF, ops="".join(ops), catch_up=catch_up, buffered_events=nbuf,
+                          prefill=prefill if len(prefill) <= 60 else dict(summary="%d ops" % len(prefill), head=prefill[:5],
+                                                                          sizes=[o for o in prefill if o[0] == "size"],
+                                                                          facilities=len(set(o[1] for o in prefill))))
+            what = "subscribe(catch_up=%s) with %d buffered events, then %s" % (catch_up, nbuf, "".join(ops)[:200])
+            for k, (ql, infl, marked, subd, ndel) in enumerate([r["at_subscribe"]] + r["steps"]):
                 if ql > MQ:
-                    ctx.fail("oracle/subscriber-queue-over-limit", "Subscription.queue holds %d events > MAX_QUEUE_SIZE %d after "
-                             "step %d of %s" % (ql, MQ, k, "".join(ops)[:200]), replay=replay)
+                    ctx.fail("oracle/subscriber-queue-over-limit", "Subscription.queue holds %d events > MAX_QUEUE_SIZE %d %s: %s"
+                             % (ql, MQ, "right after subscribe()" if k == 0 else "after step %d" % (k - 1), what), replay=replay)
                     break
                 if infl > MF or infl < 0:
-                    ctx.fail("oracle/subscriber-in-flight-over-limit", "Subscription.in_flight = %d (MAX_IN_FLIGHT %d) after step %d"
-                             % (infl, MF, k), replay=replay)
+                    ctx.fail("oracle/subscriber-in-flight-over-limit", "Subscription.in_flight = %d (MAX_IN_FLIGHT %d) %s: %s"
+                             % (infl, MF, "right after subscribe()" if k == 0 else "after step %d" % (k - 1), what), replay=replay)
                     break
                 full = full or ql == MQ
                 flight = flight or infl == MF
             emitted = list(range(r["emitted"]))
-            if not is_subseq(r["delivered"] + r["queue"], emitted) or len(set(r["delivered"])) != len(r["delivered"]):
-                ctx.fail("oracle/subscriber-order", "delivered %r + queued %r is not an order-preserving subsequence of the emitted "
-                         "events 0..%d" % (r["delivered"][:40], r["queue"][:40], r["emitted"] - 1), replay=replay)
+            seen_all = r["only"] + r["delivered"] + r["queue"]
+            if not is_subseq(seen_all, emitted) or len(set(seen_all)) != len(seen_all):
+                ctx.fail("oracle/subscriber-order", "catch-up %r + delivered %r + queued %r is not an order-preserving subsequence "
+                         "of the emitted events 0..%d (%s)" % (r["only"][:20], r["delivered"][:40], r["queue"][:40], r["emitted"] - 1,
+                                                              what), replay=replay)
+            if catch_up and not set(r["buffered"]) <= set(seen_all):
+                ctx.fail("oracle/catch-up-incomplete", "a catch-up subscriber never got buffered events %r (%s)"
+                         % (sorted(set(r["buffered"]) - set(seen_all))[:20], what), replay=replay)
             if r["rets"] != sorted(set(r["rets"])):
                 ctx.fail("oracle/numbers-not-increasing", "msg returned %r with a subscriber attached" % (r["rets"][:40],),
                          replay=replay)
-            r.update(ops=ops)
+            r.update(ops=ops, prefill=prefill, catch_up=catch_up)
             out.append(r)
-            ctx.case(["sub", MQ, MF, "".join(ops)], nontrivial=full or flight)
+            ctx.case(["sub", MQ, MF, "".join(ops), catch_up, prefill if len(prefill) < 100 else [len(prefill), prefill[-1]]],
+                     nontrivial=full or flight)
             ctx.hist("sub_limits", "%d/%d" % (MQ, MF))
             ctx.hist("sub_reached", ("queue-full " if full else "") + ("in-flight-max" if flight else "") or "neither")
+            if catch_up:
+                ctx.hist("catch_up_buffered_vs_queue_limit", "above" if nbuf > MQ else "equal" if nbuf == MQ else "below")
             if i < 1:
                 ctx.sample(dict(kind="subscription", maxq=MQ, maxfl=MF, ops="".join(ops), delivered=r["delivered"][:20]))
     return out
@@ -506,19 +563,22 @@ Definition sobs (s : sub) := (Z.of_nat (List.length (q_queue s)), q_inflight s, 
                               Z.of_nat (List.length (q_delivered s))).
 Fixpoint srun (mq mf : Z) (s : sub) (ops : list sop) :=
   match ops with [] => ([], s) | o :: t => let s1 := sub_step mq mf s o in let '(l, s2) := srun mq mf s1 t in (sobs s1 :: l, s2) end.
-Definition strace (mq mf : Z) (ops : list sop) := let '(l, s) := srun mq mf sub_init ops in (l, q_delivered s, q_queue s).
+Definition strace (mq mf : Z) (cu : bool) (pre : list op) (ops : list sop) :=
+  let '(s0, direct) := sub_subscribe cu (s_bufs (fst (run (mkCfg false false NoFault) init pre))) in
+  let '(l, s) := srun mq mf s0 ops in (sobs s0, map e_id direct, l, q_delivered s, q_queue s).
 """
 
 
 def correspond_subs(ctx, subs):
     nbad = 0
-    small = [r for r in subs if len(r["ops"]) <= 200]
-    big = [r for r in subs if len(r["ops"]) > 200]
+    size = lambda r: len(r["ops"]) + len(r["prefill"])
+    small = [r for r in subs if size(r) <= 200]
+    big = [r for r in subs if size(r) > 200]
     shards = [small[i:i + 120] for i in range(0, len(small), 120)] + [[r] for r in big]
     for si, part in enumerate(shards):
         body = SUB_DEFS
         for r in part:
-            cid = 0
+            cid = r["first_cid"]
             cops = []
             for o in r["ops"]:
                 if o == "S":
@@ -526,26 +586,280 @@ def correspond_subs(ctx, subs):
                     cid += 1
                 else:
                     cops.append({"T": "Turn", "A": "Ack", "N": "Nack"}[o])
-            body += "Eval vm_compute in strace %s %s %s.\n" % (coq_Z(r["limits"][0]), coq_Z(r["limits"][1]), coq_list(cops))
+            pre = [("SetSize %s %s %s" % (coq_Z(o[1]), coq_Z(o[2]), coq_Z(o[3]))) if o[0] == "size" else
+                   ("Msg None %s %s true true %s" % (coq_Z(o[1]), coq_Z(o[2]), coq_Z(o[3]))) for o in r["prefill"]]
+            body += "Eval vm_compute in strace %s %s %s %s %s.\n" % (coq_Z(r["limits"][0]), coq_Z(r["limits"][1]),
+                                                                    coq_bool(r["catch_up"]), coq_list(pre), coq_list(cops))
         try:
             vals = ctx.coq_eval("C18_subs_%d" % si, body, requires=REQ)
         except common.CoqEvalError as e:
             ctx.fail("correspondence-broken", "the Subscription model could not be evaluated: " + str(e)[-1500:], has_input=False)
             return
-        for r, (msteps, mdel, mq) in zip(part, vals):
+        for r, v in zip(part, vals):
+            # Coq prints left-nested pairs flat: the five components of `sobs s0` come first
+            m0, (mdirect, msteps, mdel, mq) = v[:5], v[5:]
             ms = [list(x) for x in msteps]
             ctx.traces += 1
-            if ms != r["steps"] or mdel != r["delivered"] or mq != r["queue"]:
+            if list(m0) != r["at_subscribe"] or mdirect != r["only"] or ms != r["steps"] or mdel != r["delivered"] or mq != r["queue"]:
                 nbad += 1
                 k = next((i for i, (a, b) in enumerate(zip(ms, r["steps"])) if a != b), -1)
                 if nbad <= 3:
-                    ctx.fail("correspondence/subscription", "model and implementation disagree at step %d of %s (limits %r): model %r, "
-                             "implementation %r; delivered model %r / implementation %r"
-                             % (k, "".join(r["ops"])[:120], r["limits"], ms[k] if k >= 0 else None, r["steps"][k] if k >= 0 else None,
-                                mdel[:30], r["delivered"][:30]),
-                             replay=dict(ops="".join(r["ops"]), limits=r["limits"]), has_input=False)
+                    ctx.fail("correspondence/subscription", "model and implementation disagree (limits %r, catch_up %r, %d buffered): "
+                             "after subscribe model %r / implementation %r; catch-up batch model %r.. (%d) / implementation %r.. (%d); "
+                             "step %d of %s: model %r, implementation %r; delivered model %r / implementation %r"
+                             % (r["limits"], r["catch_up"], len(r["buffered"]), list(m0), r["at_subscribe"], mdirect[:10], len(mdirect),
+                                r["only"][:10], len(r["only"]), k, "".join(r["ops"])[:120], ms[k] if k >= 0 else None,
+                                r["steps"][k] if k >= 0 else None, mdel[:30], r["delivered"][:30]),
+                             replay=dict(ops="".join(r["ops"]), limits=r["limits"], catch_up=r["catch_up"],
+                                         prefill=r["prefill"][:50]), has_input=False)
     ctx.extra["correspondence_subscription_traces"] = len(subs)
     ctx.extra["correspondence_subscription_disagreements"] = nbad
+
+
+# ====================================================================== every writer of log files reads back
+WF_FACS = [None, "big.facility", "big.facility.sub", "bigger", "other/x"]
+FILTER_OPTS = [[], ["--above", "UNUSUAL"], ["--above", "30"], ["--strip-facility", "big.facility"], ["--strip-facility", "big"],
+               ["--above", "23", "--strip-facility", "other"], ["--from", "loc"], ["--from", "zz"], ["--before", "4000000000"],
+               ["--after", "4000000000"], ["--above", "0"], ["--above", "41"]]
+
+
+def canon_rec(r):
+    return json.dumps(r, sort_keys=True)
+
+
+def expected_filter(recs, opts, flog):
+    """independent reading of `flogtool filter`'s documented selection"""
+    o = dict(zip(opts[::2], opts[1::2]))
+    levelmap = dict(NOISY=flog.NOISY, OPERATIONAL=flog.OPERATIONAL, UNUSUAL=flog.UNUSUAL, INFREQUENT=flog.INFREQUENT,
+                    CURIOUS=flog.CURIOUS, WEIRD=flog.WEIRD, SCARY=flog.SCARY, BAD=flog.BAD)
+    out = []
+    for r in recs:
+        if "d" in r:
+            d = r["d"]
+            if "--above" in o:
+                a = levelmap[o["--above"]] if o["--above"] in levelmap else int(o["--above"])
+                if d["level"] < a:
+                    continue
+            if "--strip-facility" in o and (d.get("facility") or "").startswith(o["--strip-facility"]):
+                continue
+            if "--from" in o and not r["from"].startswith(o["--from"]):
+                continue
+            if "--before" in o and d["time"] >= int(o["--before"]):
+                continue
+            if "--after" in o and d["time"] <= int(o["--after"]):
+                continue
+        out.append(r)
+    return out
+
+
+def writer_family(ctx, impl):
+    """LogFileObserver (plain, .bz2), incident reporters, flogtool tail --save-to (plain, bz2), log gatherer (incl.
+    rotation), incident gatherer, and flogtool filter from each of these into a new plain file / a new .bz2 file / in
+    place: whatever is written must come back through flogfile.get_events with the same records"""
+    import bz2, shutil
+    from foolscap.logging import log as flog, flogfile, filter as ffilter, tail as ftail, gatherer as fgath
+    runs = []
+    nhist = ctx.n(7, 80)
+    with impl.E.quiet():
+        for h in range(nhist):
+            fixed = h == 0
+            rng = ctx.rng
+            rig = impl.LoggerRig("writers", True, rng.random() < 0.5 and not fixed, logfile=True)
+            L = rig.L
+            lfo2_path = os.path.join(rig.dir, "all2.flog.bz2")
+            lfo2 = flog.LogFileObserver(lfo2_path, level=0)
+            L.addObserver(lfo2.msg)
+            hist = []
+            nmsg = 6 if fixed else rng.randint(3, 25)
+            for cid in range(nmsg):
+                if fixed:
+                    fac, lvl, vs = WF_FACS[cid % 5], [10, 20, 23, 30, 35, 40][cid], [["int", 1], ["str", u"thr\u00e9e"], ["cyclist"],
+                                                                                     ["deep", 3000], ["badrepr"], ["none"]][cid]
+                else:
+                    fac, lvl = rng.choice(WF_FACS), rng.choice([5, 10, 20, 23, 25, 30, 35, 40])
+                    vs = impl.gen_value(rng, rng.choices(["ok", "odd", "bad"], [0.7, 0.2, 0.1])[0])
+                kw = dict(cid=cid, level=lvl, x=impl.build(vs))
+                if fac is not None:
+                    kw["facility"] = fac
+                hist.append([fac, lvl, vs])
+                L.msg(u"m%d \u00e9" % cid, **kw)
+                rig.turn()
+            L.msg("final trigger", cid=nmsg, level=flog.WEIRD)
+            hist.append([None, flog.WEIRD, ["none"]])
+            rig.turn()
+            rig.timer()
+            rig.close()
+            lfo2._stop()
+            emitted = list(rig.order)
+            want_all = [[e["num"], e["level"], e["message"]] for e in emitted]
+            replay0 = dict(history=hist)
+
+            def read(path, what, replay):
+                try:
+                    return list(flogfile.get_events(path))
+                except Exception as e:
+                    ctx.fail("oracle/written-file-unreadable", "%s: %s cannot be read back with flogfile.get_events: %s: %s"
+                             % (what, os.path.basename(path), type(e).__name__, e), replay=replay)
+                    return None
+
+            def whole(path, what):
+                recs = read(path, what, dict(replay0, writer=what))
+                if recs is None:
+                    return None
+                got = [[r["d"].get("num"), r["d"].get("level"), r["d"].get("message")] for r in recs if "d" in r]
+                if got != want_all or not recs or "header" not in recs[0]:
+                    ctx.fail("oracle/written-file-differs", "%s: %d events were written, read back %d; first difference at %d"
+                             % (what, len(want_all), len(got), next((i for i, (a, b) in enumerate(zip(got, want_all)) if a != b),
+                                                                   min(len(got), len(want_all)))), replay=dict(replay0, writer=what))
+                ctx.case(["writer", what, hist if len(hist) < 12 else [len(hist), hist[-2]]], nontrivial=True)
+                ctx.hist("writer_path", what)
+                return recs
+            sources = []
+            r = whole(rig.lfo_path, "LogFileObserver(plain)")
+            sources.append(("logfile-plain", rig.lfo_path, r))
+            r = whole(lfo2_path, "LogFileObserver(.bz2)")
+            sources.append(("logfile-bz2", lfo2_path, r))
+            # flogtool tail --save-to
+            for kind, opener, fn in (("plain", lambda p: open(p, "wb"), "tail.flog"), ("bz2", lambda p: bz2.BZ2File(p, "w"), "tail.flog.bz2")):
+                p = os.path.join(rig.dir, fn)
+                sv = ftail.LogSaver("nodeid", opener(p))
+                sv.emit_header({"foolscap": "x"}, 123)
+                for e in emitted:
+                    try:
+                        sv.remote_msg(e)
+                    except Exception as ex:
+                        ctx.fail("oracle/writer-raises", "tail.LogSaver.remote_msg raised %s: %s" % (type(ex).__name__, ex),
+                                 replay=dict(replay0, writer="tail-" + kind))
+                sv.disconnected()
+                sources.append(("tail-" + kind, p, whole(p, "tail.LogSaver(%s)" % kind)))
+            # log gatherer: savefile, then rotation
+            class G(object):
+                basedir = rig.dir
+                bzip = None
+                format_time = fgath.GathererService.format_time
+                _open_savefile = fgath.GathererService._open_savefile
+                msg = fgath.GathererService.msg
+                do_rotate = fgath.GathererService.do_rotate
+            g = G()
+            g._open_savefile(1000000000.0)
+            for e in emitted:
+                try:
+                    g.msg("nodeid", e)
+                except Exception as ex:
+                    ctx.fail("oracle/writer-raises", "GathererService.msg raised %s: %s" % (type(ex).__name__, ex),
+                             replay=dict(replay0, writer="gatherer"))
+            rotated = []
+            g.do_rotate().addCallback(rotated.append)
+            g._savefile.close()
+            if rotated:
+                sources.append(("gatherer", rotated[0], whole(rotated[0], "log gatherer savefile (rotated)")))
+                read(g._savefile_name, "log gatherer savefile (fresh)", dict(replay0, writer="gatherer-fresh"))
+            # incident files (reporter), and the incident gatherer's copy of the first one
+            for fn in rig.published:
+                p = os.path.join(rig.incdir, fn)
+                recs = read(p, "incident reporter", dict(replay0, writer="incident"))
+                sources.append(("incident", p, recs))
+                ctx.hist("writer_path", "incident reporter")
+            inc = [x for x in sources if x[0] == "incident" and x[2]]
+            if inc:
+                recs = inc[0][2]
+                class IO(object):
+                    tubid_s = "tubx"
+                p = os.path.join(rig.dir, "gathered-incident.flog.bz2")
+                fgath.IncidentObserver.save_incident(IO(), p, (recs[0]["header"], [r_["d"] for r_ in recs[1:]]))
+                back = read(p, "incident gatherer save_incident", dict(replay0, writer="incident-gatherer"))
+                if back is not None and ([canon_rec(back[0]["header"])] + [canon_rec(b["d"]) for b in back[1:]]
+                                         != [canon_rec(recs[0]["header"])] + [canon_rec(r_["d"]) for r_ in recs[1:]]):
+                    ctx.fail("oracle/written-file-differs", "incident gatherer: the saved incident differs from the fetched one",
+                             replay=dict(replay0, writer="incident-gatherer"))
+                sources.append(("incident-gathered", p, back))
+                ctx.hist("writer_path", "incident gatherer")
+            # flogtool filter from every source
+            k = 0
+            for sname, spath, srecs in sources:
+                if not srecs:
+                    continue
+                src_bz2 = spath.endswith(".bz2")
+                for target in ("new-plain", "new-bz2", "inplace"):
+                    optsets = FILTER_OPTS if fixed else [rng.choice(FILTER_OPTS), rng.choice(FILTER_OPTS[:6])]
+                    if fixed and sname not in ("logfile-plain", "logfile-bz2", "incident"):
+                        optsets = FILTER_OPTS[:4]
+                    for opts in optsets:
+                        k += 1
+                        work = os.path.join(rig.dir, "f%d-src%s" % (k, ".flog.bz2" if src_bz2 else ".flog"))
+                        shutil.copyfile(spath, work)
+                        if target == "inplace":
+                            args, outp = opts + [work], work
+                        else:
+                            outp = os.path.join(rig.dir, "f%d-out%s" % (k, ".flog.bz2" if target == "new-bz2" else ".flog"))
+                            args = opts + [work, outp]
+                        replay = dict(replay0, source=sname, source_is_bz2=src_bz2, target=target, options=opts)
+                        what = "flogtool filter %s <%s file from %s>%s" % (" ".join(opts), "bz2" if src_bz2 else "plain", sname,
+                                                                        "" if target == "inplace" else " <%s>" % target)
+                        o = ffilter.FilterOptions()
+                        o.stdout, o.stderr = io_mod.StringIO(), io_mod.StringIO()
+                        try:
+                            o.parseOptions(args)
+                            ffilter.Filter().run(o)
+                        except Exception as e:
+                            ctx.fail("oracle/filter-raises", "%s raised %s: %s" % (what, type(e).__name__, e), replay=replay)
+                            continue
+                        back = read(outp, what, replay)
+                        want = expected_filter(srecs, opts, flog)
+                        ctx.case(["filter", sname, target, opts, len(srecs)], nontrivial=True)
+                        ctx.hist("filter_target", "%s %s" % ("bz2-source" if src_bz2 else "plain-source", target))
+                        if back is not None and [canon_rec(b) for b in back] != [canon_rec(w) for w in want]:
+                            ctx.fail("oracle/written-file-differs", "%s: kept %d records, expected %d of %d"
+                                     % (what, len(back), len(want), len(srecs)), replay=replay)
+                        leftovers = [f for f in os.listdir(rig.dir) if f.endswith(".tmp")]
+                        if leftovers:
+                            ctx.fail("oracle/filter-leftovers", "%s left %r behind" % (what, leftovers), replay=replay)
+                        if target == "inplace" and back is not None and read(work, what, replay) is None:
+                            pass
+                        # model input: only --above / --strip-facility are modelled
+                        oo = dict(zip(opts[::2], opts[1::2]))
+                        if set(oo) <= {"--above", "--strip-facility"} and all(isinstance(r_["d"].get("level"), int) for r_ in srecs if "d" in r_):
+                            lm = dict(UNUSUAL=flog.UNUSUAL)
+                            above = None if "--above" not in oo else lm.get(oo["--above"]) if oo["--above"] in lm else int(oo["--above"])
+                            pre = oo.get("--strip-facility")
+                            frecs = [("header" in r_, 0 if "header" in r_ else r_["d"]["level"],
+                                      bool(pre is not None and "d" in r_ and (r_["d"].get("facility") or "").startswith(pre)), i)
+                                     for i, r_ in enumerate(srecs)]
+                            idx = {canon_rec(r_): i for i, r_ in enumerate(srecs)}
+                            runs.append(dict(above=above, strip=pre is not None, final_bz2=outp.endswith(".bz2"),
+                                             inplace=target == "inplace", recs=frecs, what=what,
+                                             got=None if back is None else [idx.get(canon_rec(b), -1) for b in back]))
+                        for f in (work, outp):
+                            if os.path.exists(f):
+                                os.unlink(f)
+    return runs
+
+
+def correspond_writers(ctx, runs):
+    nbad = 0
+    for s0 in range(0, len(runs), 150):
+        part = runs[s0:s0 + 150]
+        body = "Open Scope Z_scope.\nDefinition ids (o : option (list frec)) := match o with Some l => (true, map fr_id l) | None => (false, []) end.\n"
+        for r in part:
+            recs = coq_list(["mkFrec %s %s %s %s" % (coq_bool(a), coq_Z(b), coq_bool(c), coq_Z(d)) for a, b, c, d in r["recs"]])
+            body += "Eval vm_compute in ids (filter_run %s %s %s %s %s).\n" % (
+                "None" if r["above"] is None else "(Some %s)" % coq_Z(r["above"]), coq_bool(r["strip"]), coq_bool(r["final_bz2"]),
+                coq_bool(r["inplace"]), recs)
+        try:
+            vals = ctx.coq_eval("C18_writers_%d" % (s0 // 150), body, requires=REQ)
+        except common.CoqEvalError as e:
+            ctx.fail("correspondence-broken", "the file model could not be evaluated: " + str(e)[-1500:], has_input=False)
+            return
+        for r, (okm, mids) in zip(part, vals):
+            ctx.traces += 1
+            m = mids if okm else None
+            if m != r["got"]:
+                nbad += 1
+                if nbad <= 3:
+                    ctx.fail("correspondence/filter", "%s: model reads back %r, implementation %r" % (r["what"], m, r["got"]),
+                             replay=dict(what=r["what"], recs=r["recs"][:40]), has_input=False)
+    ctx.extra["correspondence_filter_runs"] = len(runs)
+    ctx.extra["correspondence_filter_disagreements"] = nbad
 
 
 # ====================================================================== hostile calls, format_message
